@@ -26,6 +26,7 @@ import ast
 from ..lifecycle import Lifecycle
 from ..repo import AnalysisError, own_nodes
 from .common import DISPATCHER, OBSERVER
+from .roles import schedule_attr
 
 MANIFEST = {
     "text": (
@@ -448,7 +449,7 @@ def dispatcher_reset(ctx, lc, disp, rule):
         chk.violation(rule, s_rst, None, f"Schedule.reset does not re-establish {sorted(wa - wr)} written by add")
     # empty-schedule expression agreement between __init__ and reset
     e_init = [nd.value for nd in own_nodes(s_init.node) if isinstance(nd, ast.Assign) and isinstance(nd.targets[0], ast.Name) and nd.targets[0].id == "schedule"]
-    e_rst = [nd.value for nd in own_nodes(s_rst.node) if isinstance(nd, ast.Assign) and isinstance(nd.targets[0], ast.Attribute) and nd.targets[0].attr in ("schedule", "_schedule")]
+    e_rst = [nd.value for nd in own_nodes(s_rst.node) if isinstance(nd, ast.Assign) and isinstance(nd.targets[0], ast.Attribute) and nd.targets[0].attr in ("schedule", schedule_attr(ctx))]
     if e_init and e_rst:
         a = ast.unparse(e_init[0]).replace("self.instance", "instance")
         b = ast.unparse(e_rst[0]).replace("self.instance", "instance")
